@@ -2,7 +2,7 @@
 from runner import Stream
 import vlib
 
-PROP_MODULES = ["Vlsp.Props.C16"]
+PROP_MODULES = ["Vlsp.Props.C16", "Vlsp.Props.C16Server"]
 RULE = ("URIs = directory prefixes (POSIX/Windows separators, significant names in non-final positions, "
         "look-alike prefixes/suffixes, case variants, query/fragment suffixes; every pair of such prefixes one after the other) x file names x extensions, "
         "full product; non-trivial = the URI contains at least one significant name; distinct by URI")
